@@ -116,8 +116,11 @@ def elem_src(style, e) -> str:
         return f"class CD:\n    def __init__(self, z: int):\n{d}\n        self.zz: int = z\n\n"
     if e == "CC":
         return "class CC:\n    at: int = 3\n\n    def plainmeth(self, p: int) -> int:\n        ...\n\n"
-    d = doc(style, desc_lines("CB"), "    ")
-    return f"class CB:\n{d}\n\n" + fun_src(style, "CB.meth", "meth", "    ", "self") + "\n"
+    # CB documents an attribute `at`; its nested class In documents an attribute of the same name
+    d = doc(style, desc_lines("CB"), "    ", attrs=[("at", "int", "tok_CB_at_at is an attribute.")])
+    din = doc(style, ["tok_CB_In_desc first line."], "        ", attrs=[("at", "int", "tok_CB_In_at_at is an attribute.")])
+    return (f"class CB:\n{d}\n\n    at: int = 1\n\n    class In:\n{din}\n\n        at: int = 2\n\n"
+            + fun_src(style, "CB.meth", "meth", "    ", "self") + "\n")
 
 
 DECODE = {}
@@ -128,6 +131,7 @@ for o in ("fa", "fb", "CA.meth", "CB.meth"):
 DECODE.update({"tok_fc_desc": ("fc", "desc"), "tok_fc_p_p": ("fc", "p_p"), "tok_fc_ra": ("fc", "ra"), "tok_fc_rb": ("fc", "rb"), "tok_fc_rc": ("fc", "rc")})
 DECODE["tok_CD_p_z"] = ("CD", "p_z")
 DECODE.update({"tok_CA_re__init___desc": ("CA.re__init__", "desc"), "tok_CA_re__init___p_x": ("CA.re__init__", "p_x"), "tok_CA_re__init___res": ("CA.re__init__", "res")})
+DECODE.update({"tok_CB_at_at": ("CB.at", "at"), "tok_CB_In_desc": ("CB.In", "desc"), "tok_CB_In_at_at": ("CB.In.at", "at")})
 DECODE.update({"tok_fa_ex": ("fa", "ex"), "tok_CA_desc": ("CA", "desc"), "tok_CB_desc": ("CB", "desc"), "tok_CA_p_x": ("CA", "p_x"), "tok_CA_at_at": ("CA.at", "at")})
 
 
